@@ -203,6 +203,49 @@ def second_normaliser(pid: str, world: World) -> tuple[dict, list[str]]:
     return {'second_normaliser': {'engine': f'sympy {cross.sp.__version__} (expand_trig + simplify)', 'zero_tests_rechecked': cross.n, 'disagreements': len(cross.disagreements)}}, cross.disagreements[:5]
 
 
+def _refactor_job(args):
+    pid, root, patch = args
+    from .run import run_property
+
+    try:
+        v = world_with_patch(root, patch)
+    except AnalysisError as exc:
+        return patch, 'unappliable', str(exc)
+    ck = run_property(pid, v)
+    return patch, 'ok', (sorted(o.key for o in ck.violations()), sorted(o.key for o in ck.incompletes()), ck.floor_failures())
+
+
+def refactor_corpus(pid: str, world: World, base_v: set, base_i: set) -> tuple[int, list[str]]:
+    import multiprocessing as mp
+
+    patches = sorted(glob.glob(os.path.join(VERIF, 'refactors', '*', 'patch.diff')))
+    if not patches or world.overrides:
+        return 0, []
+    expected = {}
+    exp_file = os.path.join(VERIF, 'refactors', 'expected.json')
+    if os.path.exists(exp_file):
+        with open(exp_file, encoding='utf-8') as f:
+            expected = json.load(f)
+    failures: list[str] = []
+    with mp.get_context('fork').Pool(min(12, os.cpu_count() or 4)) as pool:
+        results = pool.map(_refactor_job, [(pid, world.root, p) for p in patches])
+    n = 0
+    for patch, status, payload in results:
+        rid = os.path.basename(os.path.dirname(patch))
+        if status != 'ok':
+            continue  # the refactor no longer applies to this tree (the code moved on): nothing to learn from it
+        n += 1
+        viol, inc, floors = payload
+        new_v = [k for k in viol if k not in base_v]
+        new_i = [k for k in inc if k not in base_i]
+        allowed = expected.get(rid, {}).get(pid)
+        if new_v:
+            failures.append(f'refactor {rid}: false alarm: {new_v[:2]}')
+        elif (new_i or floors) and allowed != 'undecided':
+            failures.append(f'refactor {rid}: not decided: {(new_i or floors)[:2]}')
+    return n, failures
+
+
 def self_test(pid: str, world: World) -> tuple[dict, list[str]]:
     from .run import run_property
 
@@ -241,6 +284,10 @@ def self_test(pid: str, world: World) -> tuple[dict, list[str]]:
             ncaught += 1
         else:
             failures.append(f'seeded {meta["id"]}: expected a violation of {want or pid}, got {sorted(new)[:3]}')
+    # (b2) behaviour-preserving refactors written by independent agents (helper extraction, control-flow restructuring,
+    # equivalent spellings, class-hierarchy moves): the check must stay silent on every one of them
+    nref, ref_fail = refactor_corpus(pid, world, base_v, base_i)
+    failures += ref_fail
     # (c) the pre-fix revision shows the recorded findings of this property
     hist = {}
     expected_file = os.path.join(VERIF, 'selftest', 'prefix_findings.json')
@@ -259,7 +306,8 @@ def self_test(pid: str, world: World) -> tuple[dict, list[str]]:
                     failures.append(f'pre-fix revision {exp["revision"]}: recorded findings not reported: {missing[:3]}')
             except (AnalysisError, subprocess.CalledProcessError) as exc:
                 hist = {'revision': exp['revision'], 'skipped': str(exc)[:80]}
-    return {'self_test': {'benign_variants_silent': nben - sum(1 for f in failures if f.startswith('benign')), 'benign_variants': nben, 'seeded_defects': nseed,
+    return {'self_test': {'benign_variants_silent': nben - sum(1 for f in failures if f.startswith('benign')), 'benign_variants': nben, 'refactor_corpus': nref,
+                          'refactor_corpus_silent': nref - len(ref_fail), 'seeded_defects': nseed,
                           'seeded_defects_reported': ncaught, 'historical': hist}}, failures
 
 
